@@ -1,6 +1,7 @@
 package symex
 
 import (
+	"strconv"
 	"fmt"
 	"go/types"
 	"strings"
@@ -429,6 +430,20 @@ func lockOpMode(acquire, shared bool) handler {
 		}
 		st := e.st
 		key := p.Obj*1000 + pathHash(p.Path)
+		// mutual exclusion between goroutines: a mutex held exclusively by ANOTHER goroutine blocks the
+		// caller until that goroutine releases it (nobody runnable = blocks for ever)
+		okey := "mutex-owner:" + strconv.Itoa(key)
+		if acquire {
+			if owner, held := st.ghost[okey]; held && owner != int64(st.curGor.ID)+1 {
+				e.blockCurrent("waiting for a mutex that another goroutine holds")
+				return nil, false
+			}
+			if !shared {
+				st.ghost[okey] = int64(st.curGor.ID) + 1
+			}
+		} else if !shared {
+			delete(st.ghost, okey)
+		}
 		if shared {
 			key = -key
 		}
